@@ -180,9 +180,11 @@ def gen_request(rng, ident, first):
             uri += b"#f%d" % ident
     else:
         userinfo = rng.choice([b"", b"", b"u%d@" % ident, b"alice:s3cret@", b":@", b"a.b-c@"])
-        uri = b"http://" + userinfo + host + (b":%d" % port if port > 0 else b"") + b"/r%dz" % ident + rng.choice([b"", b"?x=%d" % ident])
+        uri = b"http://" + userinfo + host + (b":" + (b"%d" % port).rjust(rng.choice([0, 0, 6, 8]), b"0") if port > 0 else b"") + b"/r%dz" % ident + rng.choice([b"", b"?x=%d" % ident])
     proto = rng.choice([b"HTTP/1.1", b"HTTP/1.1", b"HTTP/1.0"])
-    hostv = host + (b":%d" % port if port > 0 else b"")
+    # the port as text: plain, or zero-padded to 5..9 characters (the reported number is the decimal value of the text)
+    ptext = (b"%d" % port).rjust(rng.choice([0, 0, 0, 5, 6, 7, 9]), b"0") if port > 0 else b""
+    hostv = host + (b":" + ptext if port > 0 else b"")
     hdrs = [(rcase(rng, b"Host"), hostv, True)] + [(n, v, False) for n, v in gen_fields(rng, ident, rng.randint(0, 6))]
     body = b""
     framing = "none"
